@@ -246,6 +246,8 @@ type Cluster struct {
 	lastTamperedOp    string
 	syn               *synthState
 	synTxn            int
+	synFairFrom       int // synthetic histories: number of events created before the fair continuation (0: none)
+	synFairCycles     int
 	refDag            *refDag
 	refFame           *refFame
 	recordWrites      bool
